@@ -1,12 +1,35 @@
 """C06 - a rejected edit leaves every IR object exactly as it was."""
-from .. import ircheck
+from .. import ircheck, topocheck
+from ..report import Ctx
 
 LEVEL = "model_checking"
 
 
 def run(ctx):
     ircheck.run_engine(ctx, "C06")
+    # The "cycle found by sort" clause: Graph.sort / Function.sort / TopologicalSortPass over nested
+    # graphs is specified in TopoSort.tla (C12); its CycleAtomic clause (a ValueError from sort leaves
+    # every graph's order unchanged) is the C06 requirement for that call. The TopoSort engine is run
+    # here as well and its CycleAtomic verdicts are reported under C06.
+    sub = Ctx("C12", ctx.tier, ctx.seed, ctx.scratch)
+    sub.known = []
+    topocheck.run_engine(sub)
+    ctx.states += sub.states
+    ctx.transitions += sub.transitions
+    ctx.replayed += sub.replayed
+    ctx.validated += sub.validated
+    ctx.evaluations += sub.evaluations
+    ctx.tlc_runs += sub.tlc_runs
+    ctx.extra["sort_cycle_clause"] = {"engine": "toposort (specs/sort/TopoSort.tla, clause CycleAtomic)",
+                                      "instances_replayed": sub.replayed, "violations_of_other_clauses_ignored_here":
+                                      sorted(s for s in sub.violations if "CycleAtomic" not in s)}
+    for sig, detail in sub.violations.items():
+        if "CycleAtomic" in sig:
+            ctx.violation("C06:GSort:cycle:" + sig.split("CycleAtomic", 1)[1].strip(":"),
+                          dict(detail, via="C12 CycleAtomic", message="sort() raised on a cyclic graph but changed a graph's node order"))
 
 
 def replay(ctx, detail) -> bool:
+    if detail.get("via") == "C12 CycleAtomic":
+        return topocheck.replay_detail(ctx, detail)
     return ircheck.replay_detail(ctx, detail, "C06")
